@@ -3,7 +3,8 @@
    printed by Coq and closed by `exact`. *)
 From Coq Require Import List ZArith String.
 From Sismic Require Import Base Chart Edit.
-From SismicProofs Require Import EditProofs.
+From Sismic Require Import EditCorr.
+From SismicProofs Require Import EditProofs EditTraceProofs.
 Import ListNotations.
 Open Scope string_scope.
 
@@ -230,3 +231,85 @@ Theorem C17_internal_stay_internal_thm :
             t_source t' = ren old new (t_source t) /\ t_target t' = option_map (ren old new) (t_target t)).
 Proof. exact C17_internal_stay_internal. Qed.
 Print Assumptions C17_internal_stay_internal_thm.
+
+(* REMOVED OBJECTS (the objects a caller still holds after remove_state). The traced removal computes the same chart and result as remove_state, for every fuel *)
+Theorem remove_state_trace_chart_thm :
+  forall (f : nat) (c : chart) (n : name),
+         (fst (fst (remove_state_trace f c n)), snd (remove_state_trace f c n)) = remove_state_fuel f c n.
+Proof. exact EditTraceProofs.remove_state_trace_chart. Qed.
+Print Assumptions remove_state_trace_chart_thm.
+
+(* the removed objects are exactly the state and its descendants, each once, descendants before their ancestors, the state itself last *)
+Theorem removed_objects_names_thm :
+  forall (c : chart) (n : name),
+         sound c ->
+         fields_ok c ->
+         has_state c n = true ->
+         let names := map s_name (removed_objects c n) in
+         Permutation.Permutation names (n :: descendants_for c n) /\
+         NoDup names /\
+         (exists l : list name, names = (l ++ [n])%list) /\
+         (forall (i j : nat) (x y : name),
+          nth_error names i = Some x -> nth_error names j = Some y -> In x (descendants_for c y) -> i < j).
+Proof. exact EditTraceProofs.removed_objects_names. Qed.
+Print Assumptions removed_objects_names_thm.
+
+(* the value each removed object is left with: initial / memory reset exactly when they name a state popped no later, every other field unchanged *)
+Theorem removed_objects_values_thm :
+  forall (c : chart) (n : name),
+         sound c ->
+         fields_ok c ->
+         has_state c n = true ->
+         let L := removed_objects c n in
+         let names := map s_name L in
+         forall (i : nat) (x : name),
+         nth_error names i = Some x ->
+         exists s : state,
+           lookup x (c_states c) = Some s /\
+           nth_error L i = Some (reset_refs (fun y : name => mem y (firstn (S i) names)) s).
+Proof. exact EditTraceProofs.removed_objects_values. Qed.
+Print Assumptions removed_objects_values_thm.
+
+(* a removed history state keeps its memory exactly when the remembered sibling follows it in the children list of their parent *)
+Theorem removed_objects_memory_siblings_thm :
+  forall (c : chart) (n : name),
+         sound c ->
+         fields_ok c ->
+         has_state c n = true ->
+         let L := removed_objects c n in
+         let names := map s_name L in
+         forall (i : nat) (x : name) (s v : state) (m : name),
+         nth_error names i = Some x ->
+         x <> n ->
+         lookup x (c_states c) = Some s ->
+         nth_error L i = Some v ->
+         s_memory s = Some m ->
+         exists p : name,
+           parent_for c x = Some p /\
+           In p names /\
+           (s_memory v = None <-> before (children_for c p) m x) /\
+           (s_memory v = Some m <-> before (children_for c p) x m).
+Proof. exact EditTraceProofs.removed_objects_memory_siblings. Qed.
+Print Assumptions removed_objects_memory_siblings_thm.
+
+(* without "no state is named the empty string" the strictly-before form is false of the model (witness) *)
+Theorem removed_objects_values_before_refuted_thm :
+  exists (c : chart) (n : name),
+           sound c /\
+           fields_ok c /\
+           has_state c n = true /\
+           ~
+           (forall (i : nat) (x : name),
+            nth_error (map s_name (removed_objects c n)) i = Some x ->
+            exists s : state,
+              lookup x (c_states c) = Some s /\
+              nth_error (removed_objects c n) i =
+              Some (reset_refs (fun y : name => mem y (firstn i (map s_name (removed_objects c n)))) s)).
+Proof. exact EditTraceProofs.removed_objects_values_before_refuted. Qed.
+Print Assumptions removed_objects_values_before_refuted_thm.
+
+(* the boolean side condition used by the correspondence check is the side condition of C16_preserve *)
+Theorem op_ok_b_iff_thm :
+  forall (c : chart) (op : eop), EditCorr.op_ok_b c op = true <-> op_ok c op.
+Proof. exact EditTraceProofs.op_ok_b_iff. Qed.
+Print Assumptions op_ok_b_iff_thm.
